@@ -4,6 +4,7 @@ from __future__ import annotations
 import ast
 import itertools
 
+from ..inline import inlined
 from ..model import AnalysisError, Program
 from ..report import Run
 from ..skel import BUILDER_CLASSES, kind_states, recv_path, render, render_sites, root_attr
@@ -193,6 +194,7 @@ def check(program: Program, run: Run) -> None:
         f = c.methods.get("_validate_table")
         if f is None:
             continue
+        f = inlined(program, f)     # the per-field test may live in a private helper
         selfn = f.params[0]
         # names bound to `<field>.table`
         tnames = set()
